@@ -8,7 +8,7 @@ DESCRIPTION = {
     "rule": ("Hypothesis draws a role, a timer configuration from the grid {0 (off), 0.5, 1, 2, 5}s for open/close/server-drop/auto-ping interval/auto-ping timeout, "
              "autoPingRestartOnAnyTraffic, a fractional start offset of the virtual clock (the batched timers quantise to whole seconds) and, per timer, the placement "
              "of the peer's reaction on a discretised time line: never, deadline-1-d, deadline-d, deadline, deadline+d.  Scenarios: opening handshake, closing handshake "
-             "initiated locally, TCP drop after a closing handshake (client, initiator and replier), auto-ping rounds answered by pong or by data, auto-ping during a closing "
+             "initiated locally, TCP drop after a closing handshake (client, initiator and replier), auto-ping rounds answered by pong or by data (and by data only although the connection is configured so that only pongs count: dropped), auto-ping during a closing "
              "handshake, a ping outstanding when the application starts closing (answered in time by pong or data, close reply after the ping deadline), and running the clock far past onClose.  Oracle: silent peer => transport dropped at a virtual time <= arm time + timeout and onClose(False,1006,reason) "
              "whose text names the expired timer; peer with >=1s to spare => never dropped by that timer, connection open / closed cleanly; while pongs arrive at r with >=1s to "
              "spare the next ping is written within (r+interval-1, r+interval]; after onClose nothing happens.  Non-trivial = a reaction within 1s of a deadline or two timers "
@@ -327,32 +327,37 @@ def sc_ping(c):
             delay, verdict = max(0.0, T - 1.0 - EPS) * c["frac"], True if T - 1.0 - EPS >= 0 else None
         else:
             delay, verdict = place(c, T, "p1"), in_time(c, T, "p1")
+        # configured so that only a pong counts: a peer that sends data but no pong has NOT answered (last round only: it ends the connection)
+        data_does_not_count = last and c["answer"] == "data" and not c["restart"]
+        if data_does_not_count:
+            verdict = False
         if delay is not None:
             w.advance_to(tp + delay)
             if w.ep.loss_delivered:
                 if verdict is True:
                     raise Violation("C17|ping|responsive-peer-dropped", "answer due %.2fs after the ping (timeout %.1f) but dropped at %.2f" % (delay, T, w.drop_time), c)
                 break
-            if c["answer"] == "data" and c["restart"]:
+            if c["answer"] == "data" and (c["restart"] or data_does_not_count):
                 w.feed(w.frame(1, b"traffic"))
             else:
                 w.feed(w.frame(10, fp.payload))
-            last_ref = w.d.now()
-            answered += 1
+            if not data_does_not_count:
+                last_ref = w.d.now()
+                answered += 1
         if last:
             if verdict is True:
                 w.advance_answering(tp + T + 1.5, seen_pings)     # later pings are answered at once: only this round's timer is judged
             else:
                 w.advance_to(tp + T + 1.5)
             if verdict is False:
-                expect_dropped(w, tp, T, "ping timeout", "ping")
+                expect_dropped(w, tp, T, "ping timeout", "ping" + ("|data-counted-although-only-pongs-do" if data_does_not_count else ""))
             elif verdict is True:
                 if w.drop_time is not None:
                     raise Violation("C17|ping|responsive-peer-dropped", "pong/data sent %.2fs after the ping (timeout %.1f): dropped at %.2f %r" % (delay, T, w.drop_time, w.closes()), c)
         elif verdict is None:
             break
     w.finish()
-    return "ping/%s/%s" % (c["answer"] if c["restart"] else "pong", c["p1"])
+    return "ping/%s/%s" % (c["answer"] if c["restart"] else ("data-only-while-pong-required" if c["answer"] == "data" else "pong"), c["p1"])
 
 
 def sc_ping_while_closing(c):
